@@ -222,6 +222,16 @@ RoundTripKeepsMeaning ==
      \* (the draft is a property of the document - its $schema - not of which keywords survive)
      /\ VerdDr(RoundTrip(cs.s), DrFor(cs.s)) = Verd(cs.s)
      /\ Mar(RoundTrip(cs.s)) = Mar(cs.s)
+\* ... and keeps every keyword (up to the documented omissions: empty non-asserting lists and maps, false flags)
+KeepsKeywords ==
+  (Family = "RT" /\ phase = "done" /\ "bool" \notin DOMAIN cs.s) =>
+     LET m == Mar(cs.s)
+     IN /\ "bool" \notin DOMAIN m
+        /\ DOMAIN m = {k \in DOMAIN cs.s :
+                         IF k \in (OmitEmptySeq \cup OmitEmptyMap) \ AssertingLists THEN ~IsEmptyVal(cs.s[k])
+                         ELSE IF k \in {"depSchemas", "depStrings"} THEN ~IsEmptyVal(cs.s[k])
+                         ELSE IF k \in {"uniqueItems", "deprecated", "readOnly", "writeOnly"} THEN cs.s[k]
+                         ELSE k # "propertyOrder"}
 \* C18 on the model: a decoration never changes a verdict, and a key is read as
 \* a keyword only if it is exactly the keyword
 DecorationInert ==
